@@ -50,4 +50,17 @@ func FillEntropy(p []byte) {
 
 // SetInactiveUUIDCounter positions the deterministic crypto/rand stream used outside
 // executions, so that a harness can make uuid.NewV4 produce a chosen id again.
-func SetInactiveUUIDCounter(n uint64) { inactiveUUID = n }
+func SetInactiveUUIDCounter(n uint64) {
+	inactiveUUID = n
+	if s := S; s != nil {
+		s.uuidCounter = n
+	}
+}
+
+// UUIDCounter returns the current position of the deterministic uuid stream.
+func UUIDCounter() uint64 {
+	if s := S; s != nil {
+		return s.uuidCounter
+	}
+	return inactiveUUID
+}
